@@ -309,7 +309,7 @@ CHECKS = {
         text='Model Sync/Sync.v of connectBlock / disconnectBlock / addRelevantTx / PutSyncedTo (window map with pruning at MaxReorgDepth) / syncWithChain '
              '(first synchronisation of a wallet whose birthday block is unknown: re-fetch the stamp at the located height, SetSyncedTo and '
              'SetBirthdayBlock in one transaction; the rollback loop; the birthday-reset branch when the rollback crosses the birthday block; one '
-             'waitForSync attempt as `startup first backend hdr loc`) / catchUpHashes, and of recovery inside start-up (recovery windows 3-20 generated). 26 theorems: for every valid evolution (reorg of any depth whose '
+             'waitForSync attempt as `startup first backend hdr loc`) / catchUpHashes, and of recovery inside start-up (recovery windows 3-20 generated). 29 theorems: for every valid evolution (reorg of any depth whose '
              'lowest replaced block is inside the stored window, wallet transactions anywhere in the new blocks, notified before or after BlockConnected) '
              'and every stream obtained from its notifications by inserting stale, repeated or future disconnects, redundant transaction notifications and '
              'rescan notifications for already-reached heights, no handler fails and afterwards synced-to = backend tip, every height in [lo, tip] stores '
@@ -329,8 +329,17 @@ CHECKS = {
              'handleChainNotifications goroutine (unbuffered channel + barrier value), incl. FilteredBlockConnected, RelevantTx, RescanProgress and '
              'RescanFinished; reorg depth up to 25, wallet transactions in replaced blocks, stale/repeated disconnects; start-up always through the real '
              'SynchronizeRPC -> ClientConnected -> birthdaySanityCheck -> waitForSync -> syncWithChain path with first synchronisations, rollbacks across '
-             'the birthday block, a lower backend, a fork below the window; SyncedTo/BlockHash/RangeTransactions observed after every notification.',
-        note='Defects S1 (fix: 8ce830b, disconnect handler stored the zero hash) and S16 (fix: 9a2bd3a, with a recovery window the address recovery ran BEFORE the start-up rollback loop and moved synced-to onto the new tip, so an offline reorganisation that also made the chain higher was never rolled back: stale hashes, transactions confirmed in vanished blocks) found and repaired; replays run first from corpus/C15. The order of the two start-up stages is a fact regenerated from syncWithChain (recovery_before_rollback); C15_startup_recovery_after_rollback is the theorem for this tree, C15_startup_recovery_before_rollback_partial states what the other order gives. What decides: synced-to height and hash, ChainSynced, hashes '
+             'the birthday block, a lower backend, a fork below the window; SyncedTo/BlockHash/RangeTransactions observed after every notification. '
+             'THE PRODUCER OF THE STREAM WITH THE BITCOIND BACKEND (round 5): Sync/BitcoindReorg.v models chain/bitcoind_client.go ntfnHandler + reorg (collect the new branch, '
+             'walk both branches back to the common ancestor, disconnect, fast-forward) over a block tree; C15_bitcoind_reorg_emits_the_evolution: for every tree that knows both '
+             'branches, any depth and any branch lengths, the procedure emits EXACTLY emit c e (one BlockDisconnected per detached block, tip first, each with its own hash, '
+             'height and time, then one BlockConnected per new block upward) and ends on the new tip; C15_wallet_follows_bitcoind_reorg composes it with C15_follows_evolution '
+             '(wallet consistent with the new best chain afterwards); C15_bitcoind_reorg_refuted_at_pinned keeps the pre-fix witness; premise regenerated from source '
+             '(bitcoind_reorg_disconnects_own_hash; source shape, else probe). Tie: harness/cmd/c15bd runs the REAL BitcoindConn (RPC polling) + BitcoindClient (ntfnHandler, reorg, '
+             'ConcurrentQueue) against a loopback stub node whose chain is extended and reorganised (depth 1-5, same-height reorgs the poller cannot see, back-to-back reorgs), '
+             'hands every emitted notification to a real wallet, judges the stream and the wallet (synced-to, stored hashes, confirmed records) against the node and compares the '
+             'stream with the model.',
+        note='Defect S17 (fix: a8a2d8c, found in round 5 by modelling the bitcoind client: BitcoindClient.reorg named every block after the first of a reorganisation deeper than one by the hash of the block BELOW it; the wallet ignored those disconnects and kept transactions confirmed in detached blocks) found and repaired, replay corpus/C15/bd_*.json. Defects S1 (fix: 8ce830b, disconnect handler stored the zero hash) and S16 (fix: 9a2bd3a, with a recovery window the address recovery ran BEFORE the start-up rollback loop and moved synced-to onto the new tip, so an offline reorganisation that also made the chain higher was never rolled back: stale hashes, transactions confirmed in vanished blocks) found and repaired; replays run first from corpus/C15. The order of the two start-up stages is a fact regenerated from syncWithChain (recovery_before_rollback); C15_startup_recovery_after_rollback is the theorem for this tree, C15_startup_recovery_before_rollback_partial states what the other order gives. What decides: synced-to height and hash, ChainSynced, hashes '
              "in [lo, synced height], confirmed and unconfirmed records, whether a start-up attempt fails; a handler's error flag, the synced-to "
              "timestamp, hashes outside [lo, tip] and the birthday block are counted as drift only. Defect outside the property's quantifier (needs a "
              'backend failure), predicted by the model (C15_first_sync_repeated_partial) and reproduced (fixed input 1506): when NotifyBlocks or the '
